@@ -1,6 +1,7 @@
 import PrimaiteModel.Model.Basic
 import PrimaiteModel.Model.Obs
 import PrimaiteModel.Model.ObsTruth
+import PrimaiteModel.Model.ObsConfig
 open Primaite Primaite.Obs
 
 /-! Line-protocol driver for the observation model (C02 and C09).
@@ -12,6 +13,11 @@ open Primaite Primaite.Obs
     obs <State tokens>      → `<contained 0|1> <value>`; the object then advances (`next`)
     peek <State tokens>     → same, without advancing
     spec <Truth tokens>     → `<spec value> | <contained 0|1> <observe (describe truth)>`; the object then advances
+    rawcfg <thr> <RawObs>   build the object from what the SCENARIO says (Model/ObsConfig: schema defaults, push-down, padding)
+                            → ok | rejected (construction raises)
+    show                    → the current object in the token grammar of `cfg`
+    flatdim                 → `<flatDim space> <number of Discrete leaves>`, or `raised` (a Dict without sub-spaces cannot be flattened)
+    flat <State tokens>     → `<length of flatten(space, observe(state))> <number of ones>` (or `raised`); does not advance
 -/
 
 abbrev P := StateT (List String) Option
@@ -203,6 +209,145 @@ def pTruth : P Truth := do
                     pure ({ epA := a, epB := b, bandwidth := bw, load := l } : LinkT))
   pure { nodes := ns, links := ls }
 
+/-! raw configuration (what the scenario file says) -/
+
+def pFld {α} (p : P α) : P (Fld α) := do
+  match (← tok) with
+  | "~" => pure none
+  | "-" => pure (some none)
+  | "+" => (fun v => some (some v)) <$> p
+  | _ => failure
+
+def pAbsentOr {α} (p : P α) : P (Option α) := do
+  match (← tok) with
+  | "~" => pure none
+  | "+" => some <$> p
+  | _ => failure
+
+def pThrCfg : P ThrCfg :=
+  pOpt (do let a ← pOpt pThr; let f ← pOpt pThr; let n ← pOpt pThr; pure ({ app := a, file := f, nmne := n } : ThrD))
+
+def pTraffic : P Traffic := many (do let p ← tok; let ports ← many pNat; pure (p, ports))
+
+def pSvcCfg : P SvcCfg := do
+  let n ← tok; let s ← pFld pBool
+  pure { name := n, scan := s }
+
+def pAppCfg : P AppCfg := do
+  let n ← tok; let s ← pFld pBool
+  pure { name := n, scan := s }
+
+def pFileCfg : P FileCfg := do
+  let n ← tok; let na ← pFld pBool; let s ← pFld pBool
+  pure { name := n, numAccess := na, scan := s }
+
+def pFolderCfg : P FolderCfg := do
+  let n ← tok; let fs ← many pFileCfg; let nf ← pFld pNat; let na ← pFld pBool; let s ← pFld pBool
+  pure { name := n, files := fs, numFiles := nf, numAccess := na, scan := s }
+
+def pNicCfg : P NicCfg := do
+  let n ← pNat; let nm ← pFld pBool; let t ← pFld pTraffic
+  pure { num := n, includeNmne := nm, traffic := t }
+
+def pHostCfg : P HostCfg := do
+  let h ← tok
+  let ss ← many pSvcCfg; let as ← many pAppCfg; let fs ← many pFolderCfg; let ns ← many pNicCfg
+  let n1 ← pFld pNat; let n2 ← pFld pNat; let n3 ← pFld pNat; let n4 ← pFld pNat; let n5 ← pFld pNat
+  let nm ← pFld pBool; let tr ← pFld pTraffic; let na ← pFld pBool
+  let s1 ← pFld pBool; let s2 ← pFld pBool; let s3 ← pFld pBool; let us ← pFld pBool; let t ← pThrCfg
+  pure { hostname := h, services := ss, apps := as, folders := fs, nics := ns, numServices := n1, numApps := n2, numFolders := n3,
+         numFiles := n4, numNics := n5, includeNmne := nm, traffic := tr, numAccess := na, fsScan := s1, svcScan := s2,
+         appScan := s3, users := us, thr := t }
+
+def pAclCfg : P AclCfg := do
+  let a ← pFld (many tok); let b ← pFld (many tok); let c ← pFld (many pNat); let d ← pFld (many tok); let n ← pFld pNat
+  pure { ips := a, wcs := b, ports := c, protos := d, numRules := n }
+
+def pRouterCfg : P RouterCfg := do
+  let h ← tok; let ids ← pFld (many pNat); let np ← pFld pNat; let acl ← pFld pAclCfg
+  let a ← pFld (many tok); let b ← pFld (many tok); let c ← pFld (many pNat); let d ← pFld (many tok); let n ← pFld pNat
+  let us ← pFld pBool
+  pure { hostname := h, portIds := ids, numPorts := np, acl := acl, ips := a, wcs := b, ports := c, protos := d, numRules := n, users := us }
+
+def pFirewallCfg : P FirewallCfg := do
+  let h ← tok
+  let a ← pFld (many tok); let b ← pFld (many tok); let c ← pFld (many pNat); let d ← pFld (many tok); let n ← pFld pNat
+  let us ← pFld pBool
+  pure { hostname := h, ips := a, wcs := b, ports := c, protos := d, numRules := n, users := us }
+
+def pNodesCfg : P NodesCfg := do
+  let hs ← many pHostCfg; let rs ← many pRouterCfg; let fs ← many pFirewallCfg
+  let n1 ← pFld pNat; let n2 ← pFld pNat; let n3 ← pFld pNat; let n4 ← pFld pNat; let n5 ← pFld pNat
+  let nm ← pFld pBool; let tr ← pFld pTraffic; let na ← pFld pBool
+  let s1 ← pAbsentOr pBool; let s2 ← pAbsentOr pBool; let s3 ← pAbsentOr pBool; let us ← pFld pBool
+  let np ← pFld pNat
+  let a ← pFld (many tok); let b ← pFld (many tok); let c ← pFld (many pNat); let d ← pFld (many tok); let n ← pFld pNat
+  pure { hosts := hs, routers := rs, firewalls := fs, numServices := n1, numApps := n2, numFolders := n3, numFiles := n4, numNics := n5,
+         includeNmne := nm, traffic := tr, numAccess := na, fsScan := s1, svcScan := s2, appScan := s3, users := us, numPorts := np,
+         ips := a, wcs := b, ports := c, protos := d, numRules := n }
+
+partial def pRawObs : P RawObs := do
+  match (← tok) with
+  | "null" => pure .null
+  | "nodes" => .nodes <$> pNodesCfg
+  | "links" => .links <$> many (do let a ← tok; let b ← tok; pure (a, b))
+  | "nested" => .nested <$> many (do let l ← tok; let o ← pRawObs; pure (l, o))
+  | _ => failure
+
+/-! the constructed object, in the token grammar of `cfg` (compared with the tokens read back from the real object) -/
+
+def tB (b : Bool) : String := if b then "1" else "0"
+def tMany {α} (f : α → List String) (xs : List α) : List String := toString xs.length :: (xs.map f).flatten
+def tOpt {α} (f : α → List String) : Option α → List String
+  | none => ["-"]
+  | some x => "+" :: f x
+def tThr (t : Thr) : List String := [toString t.low, toString t.med, toString t.high]
+def tW2 (w : Option (String × String)) : List String := tOpt (fun p => [p.1, p.2]) w
+def tWN (w : Option (String × Nat)) : List String := tOpt (fun p => [p.1, toString p.2]) w
+def tService (o : ServiceObs) : List String := tW2 o.wh ++ [tB o.scan]
+def tApp (o : AppObs) : List String := tW2 o.wh ++ [tB o.scan] ++ tThr o.thr
+def tFile (o : FileObs) : List String := tOpt (fun p => [p.1, p.2.1, p.2.2]) o.wh ++ [tB o.numAccess, tB o.scan] ++ tThr o.thr
+def tFolder (o : FolderObs) : List String := tW2 o.wh ++ [tB o.scan, toString o.cached] ++ tMany tFile o.files
+def tNic (o : NicObs) : List String :=
+  tWN o.wh ++ [tB o.includeNmne, toString o.lastIn, toString o.lastOut] ++ tThr o.thr ++
+    tMany (fun (p : String × List Nat) => p.1 :: tMany (fun q => [toString q]) p.2) o.traffic
+def tPort (o : PortObs) : List String := tWN o.wh
+def tLink (o : LinkObs) : List String := [o.a, o.b]
+def tAcl (o : AclObs) : List String :=
+  tW2 o.wh ++ [toString o.numRules] ++ tMany (fun x => [x]) o.ips ++ tMany (fun x => [x]) o.wcs ++
+    tMany (fun x => [toString x]) o.ports ++ tMany (fun x => [x]) o.protos
+def tHost (o : HostObs) : List String :=
+  tOpt (fun h => [h]) o.wh ++ [tB o.numAccess, tB o.users] ++ tMany tService o.services ++ tMany tApp o.apps ++
+    tMany tFolder o.folders ++ tMany tNic o.nics
+def tRouter (o : RouterObs) : List String := tOpt (fun h => [h]) o.wh ++ [tB o.users] ++ tMany tPort o.ports ++ tAcl o.acl
+/-- the six ACL objects of a firewall hold the de-duplicated lists; the rig reads them back from those objects -/
+def tFirewall (o : FirewallObs) : List String :=
+  let a := o.acl "internal_inbound_acl"
+  [o.wh, toString a.numRules] ++ tMany (fun x => [x]) a.ips ++ tMany (fun x => [x]) a.wcs ++ tMany (fun x => [toString x]) a.ports ++
+    tMany (fun x => [x]) a.protos ++ [tB o.users]
+def tNodes (o : NodesObs) : List String := tMany tHost o.hosts ++ tMany tRouter o.routers ++ tMany tFirewall o.firewalls
+
+partial def tObs : Obs → List String
+  | .null => ["null"]
+  | .service o => "svc" :: tService o
+  | .app o => "app" :: tApp o
+  | .file o => "file" :: tFile o
+  | .folder o => "folder" :: tFolder o
+  | .nic o => "nic" :: tNic o
+  | .port o => "port" :: tPort o
+  | .link o => "link" :: tLink o
+  | .links os => "links" :: tMany tLink os
+  | .acl o => "acl" :: tAcl o
+  | .host o => "host" :: tHost o
+  | .router o => "router" :: tRouter o
+  | .firewall o => "firewall" :: tFirewall o
+  | .nodes o => "nodes" :: tNodes o
+  | .nested cs => "nested" :: tMany (fun (c : String × Obs) => c.1 :: tObs c.2) cs
+
+partial def leafCount : Space → Nat
+  | .discrete _ => 1
+  | .dict kvs => (kvs.map (fun kv => leafCount kv.2)).foldl (· + ·) 0
+
 /-! printing -/
 
 def showKey : Key → String
@@ -256,6 +401,23 @@ def step (s : St) : List String → St × String
       let st := describe t
       ({ s with o := s.o.next s.capture st },
        showVal (s.o.spec s.capture t) ++ " | " ++ report s.o (s.o.val s.capture st))
+    | none => (s, "bad-op")
+  | "rawcfg" :: ws =>
+    match run (do let t ← pThrCfg; let r ← pRawObs; pure (t, r)) ws with
+    | some (t, r) =>
+      match r.build t with
+      | some o => ({ s with o := o }, "ok")
+      | none => ({ s with o := .null }, "rejected")
+    | none => (s, "bad-op")
+  | ["show"] => (s, " ".intercalate (tObs s.o))
+  | ["flatdim"] =>
+    (s, if s.o.space.flattenable then toString (flatDim s.o.space) ++ " " ++ toString (leafCount s.o.space) else "raised")
+  | "flat" :: ws =>
+    match run pState ws with
+    | some st =>
+      match flatten s.o.space (s.o.val s.capture st) with
+      | some x => (s, toString x.length ++ " " ++ toString (x.foldl (· + ·) 0))
+      | none => (s, "raised")
     | none => (s, "bad-op")
   | _ => (s, "bad-op")
 
